@@ -28,6 +28,15 @@ func typeUsageMatrix(emit emitFn) {
 		{"recursive", "TYPE @t\n{\n  \"self\": @t // {optional: true}\n}\n"},
 		{"object-with-allOf", "TYPE @t\n{ // {allOf: \"@o\"}\n  \"own\": 1\n}\nTYPE @o\n{\n  \"k\": 1\n}\n"},
 		{"undefined", ""},
+		// types that reach themselves: through a union, through another union, through an alias and an optional property, through an
+		// array item, as a pure alias cycle, through allOf (some are legal, some must be refused - none may take the process down)
+		{"recursive-union", "TYPE @t\n@t | @o\nTYPE @o\n{\n  \"k\": 1\n}\n"},
+		{"mutually-recursive-unions", "TYPE @t\n@m | @o\nTYPE @m\n@t | @o\nTYPE @o\n{\n  \"k\": 1\n}\n"},
+		{"recursive-through-alias", "TYPE @t\n@m\nTYPE @m\n{\n  \"back\": @t // {optional: true}\n}\n"},
+		{"recursive-array", "TYPE @t\n[\n  @t\n]\n"},
+		{"alias-cycle", "TYPE @t\n@m\nTYPE @m\n@t\n"},
+		{"recursive-allOf", "TYPE @t\n{ // {allOf: \"@m\"}\n  \"a\": 1\n}\nTYPE @m\n{ // {allOf: \"@t\"}\n  \"b\": 1\n}\n"},
+		{"union-of-union", "TYPE @t\n@m | @o\nTYPE @m\n@o | @r\nTYPE @o\n{\n  \"k\": 1\n}\nTYPE @r regex\n/x+/\n"},
 	}
 	forms := []struct{ name, text string }{
 		{"ref", "@t\n"},
